@@ -219,6 +219,54 @@ fn exact_grid(args: &Args, rep: &mut Report) {
             }
         }
     }
+    // two-selector cross grid: every month x every week number in ONE rule, months / years / date
+    // ranges x weeks, stepped years x month: the hints of the selectors of one rule have to be combined,
+    // and whether the combination ever matches depends on how weeks fall in each year
+    {
+        let ymd = |y: i32, m: u32, d: u32| NaiveDate::from_ymd_opt(y, m, d).unwrap();
+        let months = ["Jan", "Feb", "Mar", "Apr", "May", "Jun", "Jul", "Aug", "Sep", "Oct", "Nov", "Dec"];
+        let mut cross: Vec<String> = Vec::new();
+        for m in months {
+            for w in 1..=53 {
+                cross.push(format!("{m} week {w:02}"));
+            }
+        }
+        for w in 1..=53 {
+            cross.push(format!("2030 week {w:02}"));
+            cross.push(format!("2024-2040/4 week {w:02}"));
+            cross.push(format!("Mar-May week {w:02}-{:02}", (w + 2).min(53)));
+            cross.push(format!("Nov-Feb week {w:02}"));
+            cross.push(format!("Dec 25-Jan 05 week {w:02}"));
+            cross.push(format!("May 28-Jun 03 week {w:02} 10:00-12:00"));
+        }
+        for m in months {
+            cross.push(format!("2024-2099/5{m}"));
+        }
+        let (d0, d1) = if args.thorough() { (ymd(1900, 1, 1), ymd(2500, 12, 31)) } else { (ymd(1990 + (args.seed % 7) as i32, 1, 1), ymd(2110, 12, 31)) };
+        for (i, text) in cross.iter().enumerate() {
+            if (i as u64) % args.of.max(1) != args.worker {
+                continue;
+            }
+            let Some(oh) = build(text, &HolSpec::None) else {
+                rep.count("exact_grid_skipped_parser_rejects");
+                continue;
+            };
+            rep.evaluations += 1;
+            rep.begin(&format!("two-selector grid {text} | {d0} .. {d1}"));
+            match stream::check_exact(&oh, d0, d1, &mut Rng::new(args.seed, 0x25e1, i as u64), 0, &mut st) {
+                Ok(()) => {
+                    rep.count("two_selector_grid_windows_passed");
+                    rep.nontrivial(crate::rng::hash64(&format!("exact|{text}|{d0}")));
+                }
+                Err(msg) => {
+                    rep.violation("interval_stream_exact", format!("{text:?} [none]: {msg}"), json!({"expr": text, "holidays": "none", "exact_from": d0.to_string(), "exact_to": d1.to_string()}), None);
+                    if rep.full() {
+                        return;
+                    }
+                }
+            }
+        }
+    }
     // time-shape grid: pairs of boundary-valued spans under a few day selectors, 2018..2042
     // (thorough: 1990..2050), every day evaluated
     let shapes = stream::grid_time_shapes(args.thorough(), args.seed);
